@@ -1,7 +1,532 @@
-(* C18 - serializers are pure; placeholder until the order-independence theorems are collected. *)
-From WP Require Import Base.Prelude Model.Cbor.
+(* C18 - every serializer is a pure function of its logical input.   [PARTIAL]
+
+   "Every serializer is a pure function of its logical input: repeating the
+   call, changing the insertion order of header, parameter or attribute maps,
+   interleaving it with unrelated calls, or running many calls concurrently on
+   shared read-only inputs (certificates, keys, version constants, parsed
+   bundles) always yields byte-identical output (randomized ECDSA signature
+   bytes aside), and concurrent use causes no data race."
+
+   What is proved here, and what is not.
+
+   (i)  ORDER-INDEPENDENCE (proved, all inputs).  The models take every Go map
+        (http.Header, structured-header Params, SignatureAttributesMap,
+        subset-hashes, the entries handed to cbor EncodeMap) as an association
+        list in the arbitrary order Go's map iteration produced.  For every
+        serializer F and every such map argument m:
+             Permutation m m'  ->  F (.. m ..) = F (.. m' ..)
+        as an equation between results: the same bytes on success, the same
+        failure otherwise.  One theorem per serializer below ([*_perm]).
+        Two of them need "each key occurs once" ([NoDup] of the names), which
+        every Go map satisfies; without it the model's first-match lookups
+        would see the order ([hdr_lookup_needs_nodup], and the duplicate-key
+        remark at [serialize_pi_perm]).
+        Serializers WITHOUT a map input have nothing to permute: MICE
+        [encode] (payload, record size), [cc_write] (a list, order is
+        meaningful; per certificate the keys are three fixed strings, see
+        [encode_augcert_order]), [signatures_section], [section_table].
+
+   (ii) REPETITION / INTERLEAVING (by construction, no theorem).  Each model
+        is a Gallina function of its logical inputs; it has no state that a
+        previous, interleaved or concurrent call could have changed, so
+        [F a = F a] holds by reflexivity and says nothing.  The content of the
+        claim is that the GO code has no such state either; that is what the
+        correspondence run checks (same case repeated, interleaved decoders,
+        many goroutines on shared inputs), not Coq.  Randomised ECDSA bytes
+        enter the models as an argument ([sig]), never as an effect.
+
+   (iii) SHARED CONSTANTS (proved for a small model of slices, Proofs/GoSlice.v).
+        Go's [append] writes into the backing array of its first argument
+        when there is spare capacity.  The package-level constants the
+        serializers append to / from (bundle magic and version bytes, the
+        integrity-block magic and version, the web-bundle-id suffix) are
+        composite literals, hence cap = len, hence [append] must allocate and
+        the constant is never written ([constant_never_mutated]).  The one
+        place where a CALLER's slice used to be written -
+        GetWebBundleId before commit 44d0b33 - is exhibited
+        ([append_spare_mutates_refuted], [id_input_old_spare_mutates]) together
+        with the proof that the fixed code cannot do it
+        ([fresh_then_append_safe]).
+
+   NOT PROVED (outside a Gallina model): goroutine scheduling, the Go memory
+   model, "no data race".  These are observed by running the Go code under
+   the race detector in the correspondence run.  Hence PARTIAL.
+
+   Statements only; proofs are in Proofs/Cbor*.v (C11), Proofs/SxgCanon.v,
+   Proofs/SxgSign.v (C08), Proofs/SHRoundtrip.v (C16), Proofs/IntegrityBlockBase.v
+   (C07), Proofs/Purity.v and Proofs/GoSlice.v (new). *)
+From Coq Require Import Lia Permutation.
+From WP Require Import Base.Prelude Base.Base64 Base.Sha256.
+From WP Require Import Model.Cbor Model.Http Model.StructHdr Model.CertChain Model.Sxg
+  Model.Bundle Model.BundleSig Model.IntegrityBlock.
+From WP Require Import Spec.StructHdr.
+From WP Require Import Proofs.CborMap Proofs.SxgCanon Proofs.SxgSign Proofs.SHRoundtrip
+  Proofs.IntegrityBlockBase Proofs.BundleSigRoundtrip Proofs.Purity.
+From WP Require Proofs.GoSlice.
 Open Scope N_scope.
 
-Theorem c18_smoke : enc_map [([2], [9]); ([1], [8])] = enc_map [([1], [8]); ([2], [9])].
+(* ================================================================================== *)
+(* (i) order-independence                                                             *)
+(* ================================================================================== *)
+
+(* ---- CBOR: EncodeMap (C11) ----------------------------------------------------- *)
+Theorem enc_map_perm : forall es es' : list (bytes * bytes),
+  Permutation es es' -> enc_map es = enc_map es'.
+Proof. exact CborMap.enc_map_perm. Qed.
+Print Assumptions enc_map_perm.
+
+(* ---- signed exchanges (C08) ------------------------------------------------------ *)
+Theorem encode_exchange_headers_perm : forall e e',
+  Permutation (e_reqh e) (e_reqh e') -> Permutation (e_resph e) (e_resph e') ->
+  e_ver e = e_ver e' -> e_uri e = e_uri e' -> e_method e = e_method e' ->
+  e_status e = e_status e' ->
+  encode_exchange_headers e = encode_exchange_headers e'.
+Proof. exact headers_perm_invariant. Qed.
+Print Assumptions encode_exchange_headers_perm.
+
+Theorem write_perm : forall e e',
+  Permutation (e_reqh e) (e_reqh e') -> Permutation (e_resph e) (e_resph e') ->
+  e_ver e = e_ver e' -> e_uri e = e_uri e' -> e_method e = e_method e' ->
+  e_status e = e_status e' -> e_sig e = e_sig e' -> e_payload e = e_payload e' ->
+  write e = write e'.
+Proof. exact write_perm_invariant. Qed.
+Print Assumptions write_perm.
+
+Theorem signed_message_perm : forall e e' (cert : option bytes) (validity : bytes) (date expires : Z),
+  Permutation (e_reqh e) (e_reqh e') -> Permutation (e_resph e) (e_resph e') ->
+  e_ver e = e_ver e' -> e_uri e = e_uri e' -> e_method e = e_method e' ->
+  e_status e = e_status e' ->
+  signed_message e cert validity date expires = signed_message e' cert validity date expires.
+Proof. exact Purity.signed_message_perm. Qed.
+Print Assumptions signed_message_perm.
+
+Theorem header_integrity_perm : forall (H256 : bytes -> bytes) e e',
+  Permutation (e_reqh e) (e_reqh e') -> Permutation (e_resph e) (e_resph e') ->
+  e_ver e = e_ver e' -> e_uri e = e_uri e' -> e_method e = e_method e' ->
+  e_status e = e_status e' ->
+  header_integrity H256 e = header_integrity H256 e'.
+Proof. exact Purity.header_integrity_perm. Qed.
+Print Assumptions header_integrity_perm.
+
+(* ---- structured headers (C16): Params is a Go map ------------------------------ *)
+(* [keys] = the parameter names.  A Go map has each name once; with a repeated
+   name the stable insertion sort of the model would keep the two in supplied
+   order, and the theorem would be false - but such a list is no Go map. *)
+Theorem serialize_pi_perm : forall p p',
+  pi_label p = pi_label p' -> Permutation (pi_params p) (pi_params p') ->
+  NoDup (keys (pi_params p)) -> serialize_pi p = serialize_pi p'.
+Proof. exact serialize_unique. Qed.
+Print Assumptions serialize_pi_perm.
+
+(* signer.go builds the seven Signature parameters in a map literal: any
+   iteration order of that map gives the header the model computes *)
+Theorem signature_header_value_perm :
+  forall (H : bytes -> bytes) e certs cert_url validity date expires sig ps,
+  Permutation ps (sig_params H (e_ver e) certs cert_url validity date expires sig) ->
+  serialize_pi {| pi_label := s2b "label"; pi_params := ps |}
+  = signature_header_value H e certs cert_url validity date expires sig.
+Proof. exact signature_header_order_irrelevant. Qed.
+Print Assumptions signature_header_value_perm.
+
+(* ---- integrity block (C07): SignatureAttributesMap ------------------------------- *)
+Theorem attrs_cbor_perm : forall a a' : attrs, Permutation a a' -> attrs_cbor a = attrs_cbor a'.
+Proof. exact IntegrityBlockBase.attrs_cbor_perm. Qed.
+Print Assumptions attrs_cbor_perm.
+
+Theorem data_to_be_signed_perm : forall (hash block : bytes) (a a' : attrs),
+  Permutation a a' -> data_to_be_signed hash block a = data_to_be_signed hash block a'.
+Proof. exact Purity.data_to_be_signed_perm. Qed.
+Print Assumptions data_to_be_signed_perm.
+
+(* [isig_perm s s']: same signature bytes, attribute maps equal up to order *)
+Theorem block_cbor_perm : forall b b' : iblock,
+  Forall2 isig_perm (ib_stack b) (ib_stack b') -> block_cbor b = block_cbor b'.
+Proof. exact Purity.block_cbor_perm. Qed.
+Print Assumptions block_cbor_perm.
+
+(* ---- bundles ----------------------------------------------------------------------- *)
+Theorem encode_response_header_perm : forall (status : Z) (h h' : headers),
+  Permutation h h' -> encode_response_header status h = encode_response_header status h'.
+Proof. exact Purity.encode_response_header_perm. Qed.
+Print Assumptions encode_response_header_perm.
+
+(* [bx_perm x x']: same URL, status, body; header maps equal up to order *)
+Theorem encode_response_perm : forall x x', bx_perm x x' -> encode_response x = encode_response x'.
+Proof. exact Purity.encode_response_perm. Qed.
+Print Assumptions encode_response_perm.
+
+(* Bundle.WriteTo: the header map of ANY of the exchanges in another order.
+   [hdr_is_map x] = no header name twice in x (true of a Go map); it is needed
+   because the writer looks up "Variants" and "Variant-Key" by name. *)
+Theorem b_write_perm : forall b b' : bundle,
+  b_ver b = b_ver b' -> b_primary b = b_primary b' -> b_manifest b = b_manifest b' ->
+  b_sigs b = b_sigs b' ->
+  Forall2 bx_perm (b_exchanges b) (b_exchanges b') -> Forall hdr_is_map (b_exchanges b) ->
+  b_write b = b_write b'.
+Proof. exact Purity.b_write_perm. Qed.
+Print Assumptions b_write_perm.
+
+Theorem hdr_lookup_perm : forall (h h' : headers) (k : bytes),
+  Permutation h h' -> NoDup (map fst h) -> hdr_lookup h k = hdr_lookup h' k.
+Proof. exact Purity.hdr_lookup_perm. Qed.
+Print Assumptions hdr_lookup_perm.
+
+(* the premise cannot be dropped from the MODEL's lookup *)
+Theorem hdr_lookup_needs_nodup :
+  Permutation [([1], [[10]]); ([1], [[20]])] [([1], [[20]]); ([1], [[10]])] /\
+  hdr_lookup [([1], [[10]]); ([1], [[20]])] [1] <> hdr_lookup [([1], [[20]]); ([1], [[10]])] [1].
+Proof. exact Purity.hdr_lookup_needs_nodup. Qed.
+
+(* ---- bundle signatures: subset-hashes is a Go map (URL -> hashes) -------------- *)
+Theorem encode_subset_perm : forall s s' : signed_subset,
+  ss_validity s = ss_validity s' -> ss_auth s = ss_auth s' -> ss_date s = ss_date s' ->
+  ss_expires s = ss_expires s' -> Permutation (ss_hashes s) (ss_hashes s') ->
+  encode_subset s = encode_subset s'.
+Proof. exact Purity.encode_subset_perm. Qed.
+Print Assumptions encode_subset_perm.
+
+(* the header hash that goes into the subset does not see the header order *)
+Theorem header_sha256_perm : forall (H256 : bytes -> bytes) x x',
+  bx_perm x x' -> header_sha256 H256 x = header_sha256 H256 x'.
+Proof. exact Purity.header_sha256_perm. Qed.
+Print Assumptions header_sha256_perm.
+
+(* ---- certificate chains: fixed keys, no map input ------------------------------ *)
+(* whichever order "cert" / "ocsp" / "sct" are appended in, same bytes *)
+Theorem encode_augcert_order : forall (a : augcert) (es : list (bytes * bytes)),
+  Permutation es (augcert_entries a) -> enc_map es = encode_augcert a.
+Proof. exact Purity.encode_augcert_order. Qed.
+Print Assumptions encode_augcert_order.
+
+(* ================================================================================== *)
+(* (iii) shared constants: Go slices and append                                       *)
+(* ================================================================================== *)
+(* In this part numbers are [nat] (positions in an array). *)
+
+Theorem append_contents : forall (s : GoSlice.slice) (xs : list N),
+  GoSlice.contents (fst (GoSlice.append s xs)) = (GoSlice.contents s ++ xs)%list.
+Proof. exact GoSlice.append_contents. Qed.
+Print Assumptions append_contents.
+
+(* no spare capacity: append allocates, the original backing array (second
+   component) is as before, the result lives in a fresh array *)
+Theorem append_full_allocates : forall (s : GoSlice.slice) (xs : list N),
+  GoSlice.cap s = GoSlice.len s -> xs <> [] ->
+  snd (GoSlice.append s xs) = GoSlice.arr s /\
+  GoSlice.arr (fst (GoSlice.append s xs)) = (GoSlice.contents s ++ xs)%list /\
+  GoSlice.off (fst (GoSlice.append s xs)) = 0%nat.
+Proof. exact GoSlice.append_full_allocates. Qed.
+Print Assumptions append_full_allocates.
+
+(* spare capacity: the cells after the window are overwritten with xs *)
+Theorem append_spare_overwrites : forall (s : GoSlice.slice) (xs : list N),
+  GoSlice.wf s -> (GoSlice.len s + List.length xs <= GoSlice.cap s)%nat ->
+  firstn (List.length xs) (skipn (GoSlice.off s + GoSlice.len s) (snd (GoSlice.append s xs))) = xs /\
+  firstn (GoSlice.off s + GoSlice.len s) (snd (GoSlice.append s xs))
+  = firstn (GoSlice.off s + GoSlice.len s) (GoSlice.arr s) /\
+  skipn (GoSlice.off s + GoSlice.len s + List.length xs) (snd (GoSlice.append s xs))
+  = skipn (GoSlice.off s + GoSlice.len s + List.length xs) (GoSlice.arr s).
+Proof. exact GoSlice.append_spare_overwrites. Qed.
+Print Assumptions append_spare_overwrites.
+
+(* REFUTED: "append never changes what another slice reads".  This is the
+   pre-fix GetWebBundleId (append to the caller's key slice). *)
+Theorem append_spare_mutates_refuted :
+  exists (key other : GoSlice.slice) (xs : list N),
+    GoSlice.wf key /\ GoSlice.wf other /\ GoSlice.arr other = GoSlice.arr key /\
+    (GoSlice.len key + List.length xs <= GoSlice.cap key)%nat /\
+    (GoSlice.len key < GoSlice.cap key)%nat /\
+    GoSlice.contents other = [9; 9; 9] /\
+    GoSlice.contents {| GoSlice.arr := snd (GoSlice.append key xs);
+                        GoSlice.off := GoSlice.off other; GoSlice.len := GoSlice.len other |}
+    = [0; 1; 2] /\
+    snd (GoSlice.append key xs) <> GoSlice.arr key.
+Proof. exact GoSlice.append_spare_mutates_refuted. Qed.
+Print Assumptions append_spare_mutates_refuted.
+
+Theorem literal_full : forall c : list N,
+  GoSlice.cap (GoSlice.literal c) = GoSlice.len (GoSlice.literal c) /\
+  GoSlice.contents (GoSlice.literal c) = c /\ GoSlice.wf (GoSlice.literal c).
+Proof. exact GoSlice.literal_full. Qed.
+Print Assumptions literal_full.
+
+(* hdr_magic_b1/b2, ver_magic_b1/b2, ib_magic, ib_version_b1, the suffix 0,1,2 *)
+Theorem constant_never_mutated :
+  Forall (fun c => forall xs, xs <> [] ->
+                   snd (GoSlice.append (GoSlice.literal c) xs) = c /\
+                   GoSlice.arr (GoSlice.literal c) = c)
+         [hdr_magic_b1; hdr_magic_b2; ver_magic_b1; ver_magic_b2; ib_magic; ib_version_b1; [0; 1; 2]].
+Proof. exact GoSlice.constant_never_mutated. Qed.
+Print Assumptions constant_never_mutated.
+
+(* Version.HeaderMagicBytes() = append(HeaderMagicBytesBx, VersionMagicBytesBx...) *)
+Theorem header_magic_bytes_append : forall v : bversion,
+  let h := match v with BV1 => hdr_magic_b1 | BV2 => hdr_magic_b2 end in
+  let m := match v with BV1 => ver_magic_b1 | BV2 => ver_magic_b2 end in
+  GoSlice.contents (fst (GoSlice.append (GoSlice.literal h) m)) = header_magic_bytes v /\
+  snd (GoSlice.append (GoSlice.literal h) m) = h.
+Proof. exact GoSlice.header_magic_bytes_append. Qed.
+Print Assumptions header_magic_bytes_append.
+
+(* make([]byte, 0, n+k); append(.., a...); append(.., b...) - the fixed
+   GetWebBundleId: both appends stay inside the fresh array *)
+Theorem fresh_then_append_safe : forall a b : GoSlice.slice,
+  let s0 := GoSlice.make0 (GoSlice.len a + GoSlice.len b) in
+  let r1 := GoSlice.append s0 (GoSlice.contents a) in
+  let r2 := GoSlice.append (fst r1) (GoSlice.contents b) in
+  GoSlice.contents (fst r2) = (GoSlice.contents a ++ GoSlice.contents b)%list /\
+  snd r1 = GoSlice.arr (fst r1) /\ snd r2 = GoSlice.arr (fst r2) /\
+  GoSlice.off (fst r1) = 0%nat /\ GoSlice.off (fst r2) = 0%nat /\
+  List.length (GoSlice.arr (fst r2)) = (GoSlice.len a + GoSlice.len b)%nat.
+Proof. exact GoSlice.fresh_then_append_safe. Qed.
+Print Assumptions fresh_then_append_safe.
+
+(* old and new GetWebBundleId feed the same bytes to base32; the model's
+   web_bundle_id is that value *)
+Theorem id_input_same : forall pk : GoSlice.slice,
+  GoSlice.contents (fst (GoSlice.id_input_old pk)) = GoSlice.contents (GoSlice.id_input_new pk) /\
+  web_bundle_id (GoSlice.contents pk)
+  = lower (Base32.b32_encode (GoSlice.contents (GoSlice.id_input_new pk))).
+Proof. exact GoSlice.id_input_same. Qed.
+Print Assumptions id_input_same.
+
+Theorem id_input_old_spare_mutates : forall pk : GoSlice.slice,
+  GoSlice.wf pk -> (GoSlice.len pk + 3 <= GoSlice.cap pk)%nat ->
+  firstn 3 (skipn (GoSlice.off pk + GoSlice.len pk) (snd (GoSlice.id_input_old pk))) = [0; 1; 2].
+Proof. exact GoSlice.id_input_old_spare_mutates. Qed.
+Print Assumptions id_input_old_spare_mutates.
+
+(* ================================================================================== *)
+(* examples: every [_perm] theorem on a non-trivial input with a shuffled map        *)
+(* ================================================================================== *)
+Definition hd (k : string) (vs : list string) : bytes * list bytes := (s2b k, map s2b vs).
+Open Scope string_scope. Open Scope N_scope. Open Scope list_scope.
+
+Definition ex_resph : headers :=
+  [hd "Content-Type" ["text/html; charset=utf-8"]; hd "X-Multi" ["a"; "b"];
+   hd "Digest" ["mi-sha256-03=dcRDgR2GM35DluAV13PzgnG6+pvQwPywfFvAu1UeFrs="];
+   hd "content-encoding" ["mi-sha256-03"]; hd "Vary" []].
+(* a shuffle that is neither the identity nor the reversal *)
+Definition ex_resph' : headers :=
+  [hd "Digest" ["mi-sha256-03=dcRDgR2GM35DluAV13PzgnG6+pvQwPywfFvAu1UeFrs="]; hd "Vary" [];
+   hd "Content-Type" ["text/html; charset=utf-8"]; hd "content-encoding" ["mi-sha256-03"];
+   hd "X-Multi" ["a"; "b"]].
+Definition ex_reqh : headers := [hd "Accept" ["*/*"]; hd "accept-Language" ["en"; "fr"]; hd "X" ["1"]].
+Definition ex_reqh' : headers := [hd "X" ["1"]; hd "Accept" ["*/*"]; hd "accept-Language" ["en"; "fr"]].
+
+Definition headers_eqb (a b : headers) : bool :=
+  (lenN a =? lenN b) &&
+  forallb (fun x => existsb (fun y => bytes_eqb (fst x) (fst y)
+                                      && (lenN (snd x) =? lenN (snd y))
+                                      && forallb (fun p => bytes_eqb (fst p) (snd p))
+                                                 (combine (snd x) (snd y))) b) a.
+
+Example ex_shuffled : Permutation ex_resph ex_resph' /\ Permutation ex_reqh ex_reqh' /\
+                      ex_resph <> ex_resph' /\ ex_resph' <> rev ex_resph /\ ex_reqh <> ex_reqh'.
+Proof.
+  repeat split; try discriminate.
+  - unfold ex_resph, ex_resph'.
+    apply Permutation_cons_app with (l1 := [hd "Digest" _; hd "Vary" []]). cbn [app].
+    apply Permutation_cons_app with (l1 := [hd "Digest" _; hd "Vary" []; hd "content-encoding" _]).
+    cbn [app]. apply perm_skip.
+    apply Permutation_cons_app with (l1 := [hd "Vary" []]). cbn [app]. apply Permutation_refl.
+  - unfold ex_reqh, ex_reqh'.
+    apply Permutation_cons_app with (l1 := [hd "X" _]). cbn [app].
+    apply Permutation_cons_app with (l1 := [hd "X" _]). cbn [app]. apply Permutation_refl.
+Qed.
+
+Definition ex (v : version) (rq rs : headers) : exchange :=
+  {| e_ver := v; e_uri := s2b "https://example.com/index.html";
+     e_method := s2b "GET"; e_reqh := match v with V1b3 => [] | _ => rq end;
+     e_status := 200%Z; e_resph := rs;
+     e_sig := s2b "label;sig=*AA==*"; e_payload := s2b "<!doctype html>"; e_taint := false |}.
+
+Definition R_eqb (a b : R bytes) : bool :=
+  match a, b with
+  | Ok x, Ok y => bytes_eqb x y
+  | Err, Err => true
+  | _, _ => false
+  end.
+(* both succeed, with equal bytes *)
+Definition same_ok (a b : R bytes) : bool := is_ok a && R_eqb a b.
+
+Example ex_enc_map_perm :
+  enc_map [([98; 97; 98], [1]); ([24; 100], [2]); ([10], [3]); ([96], [4])]
+  = enc_map [([10], [3]); ([98; 97; 98], [1]); ([96], [4]); ([24; 100], [2])]
+  /\ enc_map [([10], [3]); ([98; 97; 98], [1]); ([96], [4]); ([24; 100], [2])]
+     = Ok [164; 10; 3; 24; 100; 2; 96; 4; 98; 97; 98; 1].
+Proof. vm_compute. split; reflexivity. Qed.
+
+Example ex_sxg_perm :
+  forallb (fun v =>
+    same_ok (encode_exchange_headers (ex v ex_reqh ex_resph))
+            (encode_exchange_headers (ex v ex_reqh' ex_resph'))
+    && same_ok (write (ex v ex_reqh ex_resph)) (write (ex v ex_reqh' ex_resph'))
+    && same_ok (signed_message (ex v ex_reqh ex_resph) (Some (sha256 [1; 2; 3]))
+                  (s2b "https://example.com/v") 1511128380 1511733180)
+               (signed_message (ex v ex_reqh' ex_resph') (Some (sha256 [1; 2; 3]))
+                  (s2b "https://example.com/v") 1511128380 1511733180)
+    && same_ok (header_integrity sha256 (ex v ex_reqh ex_resph))
+               (header_integrity sha256 (ex v ex_reqh' ex_resph')))
+    [V1b1; V1b2; V1b3] = true.
+Proof. vm_compute. reflexivity. Qed.
+
+(* ... and equal FAILURES: a duplicate after lower-casing is refused in every order *)
+Example ex_sxg_perm_err :
+  write (ex V1b3 [] [hd "A" ["1"]; hd "b" ["2"]; hd "a" ["3"]]) = Err /\
+  write (ex V1b3 [] [hd "a" ["3"]; hd "A" ["1"]; hd "b" ["2"]]) = Err.
+Proof. vm_compute. split; reflexivity. Qed.
+
+Definition ex_params : sh_params :=
+  [(s2b "validity-url", Some (ShStr (s2b "https://e.com/a")));
+   (s2b "integrity", Some (ShStr (s2b "digest/mi-sha256-03")));
+   (s2b "sig", Some (ShBytes [1; 2; 3; 254; 255]));
+   (s2b "date", Some (ShInt (-9223372036854775808)));
+   (s2b "flag", None);
+   (s2b "expires", Some (ShInt 9223372036854775807))].
+Definition ex_params' : sh_params :=
+  [(s2b "flag", None);
+   (s2b "sig", Some (ShBytes [1; 2; 3; 254; 255]));
+   (s2b "expires", Some (ShInt 9223372036854775807));
+   (s2b "validity-url", Some (ShStr (s2b "https://e.com/a")));
+   (s2b "date", Some (ShInt (-9223372036854775808)));
+   (s2b "integrity", Some (ShStr (s2b "digest/mi-sha256-03")))].
+
+Example ex_serialize_pi_perm :
+  serialize_pi {| pi_label := s2b "sig1"; pi_params := ex_params |}
+  = serialize_pi {| pi_label := s2b "sig1"; pi_params := ex_params' |}
+  /\ serialize_pi {| pi_label := s2b "sig1"; pi_params := ex_params' |}
+     = Ok (s2b "sig1;date=-9223372036854775808;expires=9223372036854775807;flag;integrity=""digest/mi-sha256-03"";sig=*AQID/v8=*;validity-url=""https://e.com/a""").
+Proof. vm_compute. split; reflexivity. Qed.
+
+Example ex_serialize_pi_hyp : NoDup (keys (pi_params {| pi_label := s2b "sig1"; pi_params := ex_params |})).
+Proof.
+  cbn [pi_params keys ex_params map fst].
+  repeat (constructor; [cbn [In]; intros H;
+                        repeat (destruct H as [H|H]; [vm_compute in H; discriminate H|]); exact H|]).
+  constructor.
+Qed.
+
+Example ex_signature_header_perm :
+  serialize_pi {| pi_label := s2b "label";
+                  pi_params := rev (sig_params sha256 V1b3 [[48; 1]] (s2b "https://e.com/cert")
+                                      (s2b "https://e.com/v") 1511128380 1511733180 [9; 8; 7]) |}
+  = signature_header_value sha256 (ex V1b3 [] ex_resph) [[48; 1]] (s2b "https://e.com/cert")
+      (s2b "https://e.com/v") 1511128380 1511733180 [9; 8; 7]
+  /\ is_ok (signature_header_value sha256 (ex V1b3 [] ex_resph) [[48; 1]] (s2b "https://e.com/cert")
+              (s2b "https://e.com/v") 1511128380 1511733180 [9; 8; 7]) = true.
+Proof. vm_compute. split; reflexivity. Qed.
+
+Definition ex_attrs : attrs :=
+  [(s2b "note", [1; 2; 3]); (pk_attr_name, [9; 9]); (s2b "a", []); (s2b "zz", [255])].
+Definition ex_attrs' : attrs :=
+  [(s2b "zz", [255]); (s2b "a", []); (s2b "note", [1; 2; 3]); (pk_attr_name, [9; 9])].
+
+Example ex_ib_perm :
+  same_ok (attrs_cbor ex_attrs) (attrs_cbor ex_attrs') = true /\
+  same_ok (data_to_be_signed [5; 5] [6; 6; 6] ex_attrs) (data_to_be_signed [5; 5] [6; 6; 6] ex_attrs') = true /\
+  same_ok (block_cbor {| ib_stack := [{| is_attrs := ex_attrs; is_sig := [1] |};
+                                      {| is_attrs := [(pk_attr_name, [7])]; is_sig := [2] |};
+                                      {| is_attrs := rev ex_attrs; is_sig := [3] |}] |})
+          (block_cbor {| ib_stack := [{| is_attrs := ex_attrs'; is_sig := [1] |};
+                                      {| is_attrs := [(pk_attr_name, [7])]; is_sig := [2] |};
+                                      {| is_attrs := ex_attrs; is_sig := [3] |}] |}) = true.
+Proof. vm_compute. repeat split. Qed.
+
+(* bundles: b1 with a 2x2 variant set (the lookups of Variants / Variant-Key
+   are exercised) and b2; every header map shuffled or reversed *)
+Definition ex_vv : string := "Accept-Language;en;fr, Accept-Encoding;gzip;br".
+Definition vx (shuffle : bool) (u vk body : string) : bexchange :=
+  {| bx_url := s2b u; bx_status := 200;
+     bx_hdr := if shuffle
+               then [hd "X-Multi" ["a"; "b"]; hd "Variant-Key" [vk]; hd "Variants" [ex_vv]]
+               else [hd "Variants" [ex_vv]; hd "Variant-Key" [vk]; hd "X-Multi" ["a"; "b"]];
+     bx_body := s2b body |}.
+Definition ex_b1 (shuffle : bool) : bundle :=
+  {| b_ver := BV1; b_primary := Some (s2b "https://example.com/");
+     b_manifest := Some (s2b "https://example.com/manifest.json");
+     b_sigs := Some {| sg_auth := [{| ac_cert := [1; 2; 3]; ac_ocsp := Some [4]; ac_sct := None |}];
+                       sg_vouched := [{| vs_authority := 0; vs_sig := [9; 9]; vs_signed := [7] |}] |};
+     b_exchanges := [ vx shuffle "https://example.com/" "fr;br" "FRBR";
+                      {| bx_url := s2b "https://example.com/style.css"; bx_status := 404;
+                         bx_hdr := if shuffle then ex_resph' else ex_resph; bx_body := [] |};
+                      vx shuffle "https://example.com/" "en;gzip" "ENGZ";
+                      vx false "https://example.com/" "fr;gzip" "FRGZ";
+                      vx shuffle "https://example.com/" "en;br" "ENBR" ];
+     b_taint := false |}.
+Definition ex_b2 (shuffle : bool) : bundle :=
+  {| b_ver := BV2; b_primary := Some (s2b "https://example.com/zz"); b_manifest := None; b_sigs := None;
+     b_exchanges := [ {| bx_url := s2b "https://example.com/zz"; bx_status := 200;
+                         bx_hdr := if shuffle then ex_resph' else ex_resph; bx_body := s2b "<p>" |};
+                      {| bx_url := s2b "https://example.com/a/long/path"; bx_status := 301;
+                         bx_hdr := if shuffle then rev ex_reqh else ex_reqh; bx_body := [] |};
+                      {| bx_url := s2b "b"; bx_status := 999; bx_hdr := []; bx_body := [0; 255] |} ];
+     b_taint := false |}.
+
+Example ex_bundle_perm :
+  same_ok (encode_response_header 200 ex_resph) (encode_response_header 200 ex_resph') = true /\
+  same_ok (encode_response (vx false "https://example.com/" "fr;br" "FRBR"))
+          (encode_response (vx true "https://example.com/" "fr;br" "FRBR")) = true /\
+  same_ok (b_write (ex_b1 false)) (b_write (ex_b1 true)) = true /\
+  same_ok (b_write (ex_b2 false)) (b_write (ex_b2 true)) = true /\
+  same_ok (header_sha256 sha256 (vx false "u" "fr;br" "B")) (header_sha256 sha256 (vx true "u" "fr;br" "B")) = true.
+Proof. vm_compute. repeat split. Qed.
+
+(* the hypotheses of b_write_perm hold of the example *)
+Example ex_bundle_perm_hyps :
+  forallb (fun x => negb (existsb (fun p => match p with
+                                            | (a, b) => bytes_eqb a b
+                                            end)
+                            ((fix pairs (l : list bytes) : list (bytes * bytes) :=
+                                match l with
+                                | [] => []
+                                | a :: t => map (fun b => (a, b)) t ++ pairs t
+                                end) (map fst (bx_hdr x)))))
+          (b_exchanges (ex_b1 false) ++ b_exchanges (ex_b2 false)) = true /\
+  forallb (fun p => bytes_eqb (bx_url (fst p)) (bx_url (snd p))
+                    && (bx_status (fst p) =? bx_status (snd p))%Z
+                    && bytes_eqb (bx_body (fst p)) (bx_body (snd p))
+                    && headers_eqb (bx_hdr (fst p)) (bx_hdr (snd p)))
+          (combine (b_exchanges (ex_b1 false)) (b_exchanges (ex_b1 true))) = true.
+Proof. vm_compute. split; reflexivity. Qed.
+
+Definition ex_rh (n : N) : resp_hashes :=
+  {| rh_variants := []; rh_hashes := [{| ri_hsha := [n; n; n]; ri_integ := s2b "digest/mi-sha256-03" |}] |}.
+Definition ex_subset (hs : list (bytes * resp_hashes)) : signed_subset :=
+  {| ss_validity := s2b "https://example.com/v"; ss_auth := sha256 [1; 2; 3];
+     ss_date := 1511128380; ss_expires := 1511733180; ss_hashes := hs |}.
+
+Example ex_subset_perm :
+  same_ok (encode_subset (ex_subset [(s2b "https://e.com/b", ex_rh 1); (s2b "https://e.com/", ex_rh 2);
+                                     (s2b "https://e.com/a/long", ex_rh 3); (s2b "https://e.com/a", ex_rh 4)]))
+          (encode_subset (ex_subset [(s2b "https://e.com/a/long", ex_rh 3); (s2b "https://e.com/a", ex_rh 4);
+                                     (s2b "https://e.com/b", ex_rh 1); (s2b "https://e.com/", ex_rh 2)]))
+  = true /\
+  (* equal failures: an integrity string that is not UTF-8, wherever it stands *)
+  encode_subset (ex_subset [(s2b "u", ex_rh 1);
+                            (s2b "v", {| rh_variants := []; rh_hashes := [{| ri_hsha := []; ri_integ := [255] |}] |})]) = Err /\
+  encode_subset (ex_subset [(s2b "v", {| rh_variants := []; rh_hashes := [{| ri_hsha := []; ri_integ := [255] |}] |});
+                            (s2b "u", ex_rh 1)]) = Err.
+Proof. vm_compute. repeat split. Qed.
+
+Example ex_augcert_order :
+  let a := {| ac_cert := [48; 1; 7]; ac_ocsp := Some [1; 2]; ac_sct := Some [0; 0] |} in
+  enc_map [(enc_bytes_of TText (s2b "sct"), enc_bytes [0; 0]);
+           (enc_bytes_of TText (s2b "ocsp"), enc_bytes [1; 2]);
+           (enc_bytes_of TText (s2b "cert"), enc_bytes [48; 1; 7])] = encode_augcert a
+  /\ encode_augcert a = Ok [163; 99; 115; 99; 116; 66; 0; 0; 100; 99; 101; 114; 116; 67; 48; 1; 7;
+                            100; 111; 99; 115; 112; 66; 1; 2].
+Proof. vm_compute. split; reflexivity. Qed.
+
+(* slices *)
+Example ex_magic_append :
+  GoSlice.append (GoSlice.literal hdr_magic_b2) ver_magic_b2
+  = ({| GoSlice.arr := header_magic_bytes BV2; GoSlice.off := 0; GoSlice.len := 15 |}, hdr_magic_b2).
 Proof. reflexivity. Qed.
-Print Assumptions c18_smoke.
+
+Example ex_old_get_web_bundle_id :
+  let key := {| GoSlice.arr := [7; 7; 7; 9; 9; 9]; GoSlice.off := 0; GoSlice.len := 3 |} in
+  GoSlice.wf key /\ (GoSlice.len key + 3 <= GoSlice.cap key)%nat /\
+  snd (GoSlice.id_input_old key) = [7; 7; 7; 0; 1; 2] /\
+  GoSlice.contents (GoSlice.id_input_new key) = [7; 7; 7; 0; 1; 2].
+Proof. unfold GoSlice.wf, GoSlice.cap. cbn. repeat split; lia. Qed.
